@@ -182,11 +182,13 @@ func Parse(raw []byte) *Parsed {
 }
 
 // Proj is the abstract projection of a packet shipped to TLC.
-func (c *Control) Proj(raw []byte, full bool) map[string]any {
+// Hop fields: mode "full" all of them, "win" only the window [ch-1, ch+2] the router can look at
+// (hw = index of the first one), "none" none.
+func (c *Control) Proj(raw []byte, mode string) map[string]any {
 	p := Parse(raw)
 	m := map[string]any{"src": c.asName(p.S.SrcIA), "dst": c.asName(p.S.DstIA), "sh": p.SrcHost,
 		"dh": p.DstHost, "pt": p.PT, "len": len(raw), "mo": p.MetaOff, "l4": int(p.L4),
-		"ci": 0, "ch": 0, "sl": []int{0, 0, 0}, "infos": []any{}, "hops": []any{}}
+		"ci": 0, "ch": 0, "sl": []int{0, 0, 0}, "infos": []any{}, "hops": []any{}, "hw": 0}
 	var infos []path.InfoField
 	var hops []path.HopField
 	switch {
@@ -205,9 +207,14 @@ func (c *Control) Proj(raw []byte, full bool) map[string]any {
 			"ts": int(i.Timestamp)})
 	}
 	m["infos"] = is
-	if !full {
+	if mode == "none" {
 		return m
 	}
+	lo, hi := 0, len(hops)-1
+	if mode == "win" && p.Dec != nil {
+		lo, hi = max(0, int(p.Dec.PathMeta.CurrHF)-1), min(len(hops)-1, int(p.Dec.PathMeta.CurrHF)+2)
+	}
+	m["hw"] = lo
 	hs := []any{}
 	now := time.Now()
 	seg := 0
@@ -237,7 +244,9 @@ func (c *Control) Proj(raw []byte, full bool) map[string]any {
 			e["ok"] = HopMAC(c.Keys[id.AS], id.BetaC, ts, h.ExpTime, h.ConsIngress,
 				h.ConsEgress) == h.Mac
 		}
-		hs = append(hs, e)
+		if k >= lo && k <= hi {
+			hs = append(hs, e)
+		}
 	}
 	m["hops"] = hs
 	return m
